@@ -222,6 +222,7 @@ func attestedCase(t *testing.T, run *emit.Run, r *rand.Rand) {
 	outsider := sdk.ValAddress([]byte("outsider------------"))
 	const outsiderID = 99
 
+	txPAD := false
 	kind := r.Intn(3)
 	isRef, isTx := kind == 0, kind == 2
 	sub := evmkeeper.ConsensusGetValidatorBalances
@@ -245,8 +246,9 @@ func attestedCase(t *testing.T, run *emit.Run, r *rand.Rand) {
 				HexContractAddress: "0x00000000000000000000000000000000000000c1", Abi: []byte("[]"), Payload: []byte{1}, Deadline: 1 << 40,
 				SenderAddress: make([]byte, 20),
 			}},
-		}, &consensusqueue.PutOptions{RequireSignatures: true, PublicAccessData: []byte{1}})
+		}, &consensusqueue.PutOptions{RequireSignatures: true}) // public access data: set below, once the answers are known
 		must(err)
+		txPAD = true
 	} else {
 		msgs, err = f.ConsensusKeeper.GetMessagesFromQueue(ctx, queue, 0)
 		must(err)
@@ -292,6 +294,38 @@ func attestedCase(t *testing.T, run *emit.Run, r *rand.Rand) {
 	}
 	if r.Intn(4) == 0 {
 		proofs = append(proofs, nil)
+	}
+	if txPAD {
+		// what the relayer reported as the transaction it sent (public access data): nothing like a hash, the hash of
+		// the transaction the validators attest, or 32 / 31 / 33 bytes that are NOT that hash (replaced or sped-up
+		// transaction, re-org, wrongly reported hash)
+		var attested []byte
+		for _, p := range proofs {
+			if tp, ok := p.(*evmtypes.TxExecutedProof); ok && attested == nil {
+				if tx, err := tp.GetTX(); err == nil {
+					attested = tx.Hash().Bytes()
+				}
+			}
+		}
+		other := make([]byte, 33)
+		r.Read(other)
+		var data []byte
+		mode := r.Intn(9)
+		switch {
+		case mode == 0:
+			data = []byte{1}
+		case mode == 1 && attested != nil:
+			data = attested
+		case mode == 2:
+			data = other[:31]
+		case mode == 3:
+			data = other
+		default:
+			data = other[:32]
+		}
+		must(f.ConsensusKeeper.SetMessagePublicAccessData(ctx, addrs[0], &consensustypes.MsgSetPublicAccessData{
+			MessageID: msgID, QueueTypeName: queue, Data: data}))
+		run.Count("attested-reported-tx", map[int]string{0: "1 byte", 1: "hash of the attested tx", 2: "31 bytes", 3: "33 bytes"}[mode]+map[bool]string{true: "32 bytes, not the attested tx", false: ""}[mode >= 4 || (mode == 1 && attested == nil)])
 	}
 	// partially malformed proofs: they unpack, but their bytes to hash cannot be built
 	malformed := -1
